@@ -46,6 +46,15 @@ Theorem C16_pfor_marker_slot_iff : forall xs thr v,
 Proof. exact pfor_marker_slot_iff. Qed.
 Print Assumptions C16_pfor_marker_slot_iff.
 
+(* what an outlier is, in plain arithmetic *)
+Theorem C16_pfor_outlier_meaning : forall xs thr v,
+  (1 <= length xs)%nat -> Forall (fun x => x < 18446744073709551616) xs -> In v xs ->
+  let m := pfor_encode_meta xs thr in
+  pfor_is_exc (pm_min m) (pm_tv m) (pm_marker m) v
+  = ((pm_tv m <? v) || (v - pm_min m =? pm_marker m)).
+Proof. exact pfor_is_exc_math. Qed.
+Print Assumptions C16_pfor_outlier_meaning.
+
 (* varintPFORReadMeta: header length and every field it reports *)
 Theorem C16_pfor_read_meta : forall xs thr tl m0,
   (1 <= length xs)%nat -> N.of_nat (length xs) < 4294967296 ->
